@@ -57,6 +57,9 @@ pub struct Task {
     // lifecycle hooks
     hooks: ShareLock<HashMap<TaskLifeCycle, Vec<StatementBatch>>>,
 
+    // number of times the task has been emitted
+    emits: Arc<std::sync::atomic::AtomicUsize>,
+
     runtime: Arc<Runtime>,
     // sync: Arc<std::sync::Mutex<usize>>,
 }
@@ -77,9 +80,20 @@ impl Task {
             proc: proc.clone(),
 
             hooks: Arc::new(RwLock::new(HashMap::new())),
+            emits: Arc::new(std::sync::atomic::AtomicUsize::new(0)),
             runtime: rt.clone(),
             // sync: Arc::new(std::sync::Mutex::new(0)),
         }
+    }
+
+    /// how often the task has been emitted so far
+    pub(crate) fn emit_count(&self) -> usize {
+        self.emits.load(std::sync::atomic::Ordering::SeqCst)
+    }
+
+    pub(crate) fn mark_emitted(&self) {
+        self.emits
+            .fetch_add(1, std::sync::atomic::Ordering::SeqCst);
     }
 
     pub fn unique_id(&self) -> String {
@@ -1006,6 +1020,7 @@ impl ActTask for Arc<Task> {
         ctx.set_task(self);
 
         let before_state = self.state();
+        let before_emits = self.emit_count();
         let is_review = match &self.node.content {
             NodeContent::Workflow(data) => data.review(ctx)?,
             NodeContent::Step(data) => data.review(ctx)?,
@@ -1014,7 +1029,12 @@ impl ActTask for Arc<Task> {
         };
 
         debug!("is_review:{} task={:?}", is_review, ctx.task());
-        if self.state().is_completed() && before_state != self.state() {
+        // a review can resume a pending branch that finishes at once and reviews this task again
+        // from inside: that inner review has then already emitted the new state
+        if self.state().is_completed()
+            && before_state != self.state()
+            && before_emits == self.emit_count()
+        {
             ctx.emit_task(self)?;
         }
 
